@@ -11,7 +11,7 @@
    (spec <heap line>) judges the implementation against VALUE semantics (Path.v applied to the abstraction)
    instead of against the heap model. *)
 From Coq Require Import List ZArith NArith Bool String.
-From Verif Require Import common.Sexp c02.Path c02.HeapPath.
+From Verif Require Import common.Sexp c02.Path c02.Dref c02.HeapPath.
 Import ListNotations.
 Open Scope Z_scope.
 
@@ -126,7 +126,7 @@ Definition judge (model : option jv) (impl : sexp) : sexp :=
   end.
 
 (* ---- value-level lines ---- *)
-Definition run_nat (e : sexp) : option sexp :=
+Definition run_nat (spec : bool) (e : sexp) : option sexp :=
   match e with
   | SList [t; v; p; r] =>
       if atom_is "getpath" t then
@@ -135,7 +135,15 @@ Definition run_nat (e : sexp) : option sexp :=
       else if atom_is "delpaths" t then
         match dec_jv v, p with
         | Some v, SList ps => match dec_list dec_path ps with
-                              | Some ps => Some (judge (Path.delpaths v ps) r) | None => Some (A "undecodable") end
+                              | Some ps =>
+                                  if spec then
+                                    (* the harness reference: every path resolved against the original value *)
+                                    match dref v ps with
+                                    | Some w => Some (judge (Some w) r)
+                                    | None => Some (A "ok") (* navigates into a scalar: inconclusive *)
+                                    end
+                                  else Some (judge (Path.delpaths v ps) r)
+                              | None => Some (A "undecodable") end
         | _, _ => Some (A "undecodable") end
       else None
   | SList [t; v; p; n; r] =>
@@ -355,7 +363,7 @@ Definition run_sexp (spec : bool) (e : sexp) : sexp :=
   match e with
   | SList (t :: _) =>
       if atom_is "heap" t then run_heap spec e
-      else match run_nat e with Some r => r | None => A "undecodable" end
+      else match run_nat spec e with Some r => r | None => A "undecodable" end
   | _ => A "undecodable"
   end.
 
